@@ -5,7 +5,7 @@ EXTENDS CactusRefTrace
 OpsAll == {"New", "CloneRoot", "CloneStored", "DropRoot", "Store", "Take", "DropStored",
            "Adopt", "Unadopt", "AdoptSame", "UnadoptSame", "AdoptStore", "TakeUnadopt",
            "Downgrade", "Upgrade", "UpgradeStored", "WeakClone", "WeakDrop", "StoreWeak", "TakeWeak",
-           "TryUnwrap", "GetMut", "MakeMut", "MakeMutS", "MakeMutP", "IntoRaw", "FromRaw", "IncStrong", "DecStrong", "DropDetached", "Misc", "WeakIntoRaw", "WeakFromRaw"}
+           "TryUnwrap", "GetMut", "MakeMut", "MakeMutS", "MakeMutP", "DowngradeStored", "IncStrongStored", "IntoRaw", "FromRaw", "IncStrong", "DecStrong", "DropDetached", "Misc", "WeakIntoRaw", "WeakFromRaw"}
 CapsBig == [strong |-> 100000, stored |-> 100000, rec |-> 100000, weak |-> 100000, storedW |-> 100000, over |-> TRUE, elide |-> TRUE, scripted |-> 100000, edges |-> 100000]
 VPinned == [bust |-> "out", loop |-> "split", consume |-> "ignore"]
 VFixed  == [bust |-> "owned", loop |-> "ignored", consume |-> "purge"]
